@@ -177,4 +177,41 @@ def renderSheet (s : Sheet) (lay : Layout) : List Ev :=
   [.start (q lay.pfx nWorksheet) []] ++ dimEvents lay ++ [.start (q lay.pfx nSheetData) []] ++ renderRows lay 0 s ++
     [.stop (q lay.pfx nSheetData), .stop (q lay.pfx nWorksheet)]
 
+/-! ### shared string table (§18.4.9 `sst`, §18.4.8 `si`, §18.4.4 `r`, §18.4.6 `rPh`) -/
+
+/-- one `<si>` item -/
+inductive SstItem where
+  /-- `<si><t>s</t></si>` -/
+  | plain (s : Bytes)
+  /-- `<si/>`: an item without any text -/
+  | emptyElem
+  /-- `<si><r><t>run</t></r>…<rPh><t>phonetic</t></rPh></si>` -/
+  | rich (runs : List Bytes) (phonetic : Option Bytes)
+  deriving Repr, DecidableEq
+
+/-- the string an item stands for: the concatenation of its runs; phonetic text is not part of it -/
+def SstItem.text : SstItem → Bytes
+  | .plain s => s
+  | .emptyElem => []
+  | .rich runs _ => runs.flatten
+
+def tEvents (p : Bool) (s : Bytes) : List Ev :=
+  [.start (q p nT) []] ++ (if s = [] then [] else [.text s]) ++ [.stop (q p nT)]
+
+def runEvents (p : Bool) (s : Bytes) : List Ev :=
+  [.start (q p nR) []] ++ tEvents p s ++ [.stop (q p nR)]
+
+def phoneticEvents (p : Bool) : Option Bytes → List Ev
+  | none => []
+  | some ph => [.start (q p nRPh) []] ++ tEvents p ph ++ [.stop (q p nRPh)]
+
+def renderSi (p : Bool) : SstItem → List Ev
+  | .plain s => [.start (q p nSi) []] ++ tEvents p s ++ [.stop (q p nSi)]
+  | .emptyElem => [.start (q p nSi) [], .stop (q p nSi)]
+  | .rich runs ph => [.start (q p nSi) []] ++ runs.flatMap (runEvents p) ++ phoneticEvents p ph ++ [.stop (q p nSi)]
+
+/-- `xl/sharedStrings.xml` -/
+def renderSst (p : Bool) (items : List SstItem) : List Ev :=
+  [.start (q p nSst) []] ++ items.flatMap (renderSi p) ++ [.stop (q p nSst)]
+
 end XlsxSheet
